@@ -1,9 +1,382 @@
-import Model.Common
-/-! Oracle handlers for C07 (stub until the property's model exists). -/
-namespace OracleC07
-open Common
+import Model.C07
+/-!
+Oracle handlers for C07.
 
-def handle (_cmd : String) (_f : List String) : String × String × String :=
-  ("unknown-cmd", "-", "-")
+* `C07.sched`: the implementation's trace of a scheduled run. `diff` = the trace is not the run of
+  the model under the same schedule (model's event is reported); `judge` = the property statement
+  evaluated on the observed trace alone (no model, no token rules).
+* `C07.stress`: unscheduled run; only the per-call records are known. `judge` = the successful
+  writes form one chain from the initial to the final value; `diff` = that chain replayed through the
+  model's sequential semantics.
+-/
+namespace OracleC07
+open Common C07
+
+/-! ### parsing -/
+
+def showVal : Option Val → String
+  | none => "n"
+  | some v => toString v.ctr ++ "/" ++ (if v.set.isEmpty then "-" else ",".intercalate (v.set.map toString))
+
+def parseVal (s : String) : Option (Option Val) :=
+  if s = "n" then some none else
+  match s.splitOn "/" with
+  | [c, ids] =>
+    match c.toNat?, natList? ids with
+    | some n, some l => some (some ⟨n, l.foldl (fun acc x => insertId x acc) []⟩)
+    | _, _ => none
+  | _ => none
+
+def parseBackend : String → Option Backend
+  | "consul" => some .consul
+  | "etcd" => some .etcd
+  | "ml" => some .ml
+  | _ => none
+
+structure Op where
+  key : Nat
+  failFirst : Nat
+  kind : Char
+  retry : Bool
+
+def parseOp (s : String) : Option Op :=
+  match s.splitOn "." with
+  | [k, ff, kr] =>
+    match k.toNat?, ff.toNat?, kr.toList with
+    | some k, some ff, [kind, r] => some ⟨k, ff, kind, r == '1'⟩
+    | _, _, _ => none
+  | _ => none
+
+def parseOps (s : String) : Option (List (List Op)) :=
+  (s.splitOn " ").mapM fun c => if c = "-" then some [] else (c.splitOn ";").mapM parseOp
+
+structure Spec where
+  backend : Backend
+  budget : Nat
+  pfx : Bool
+  multi : Nat
+  secondary : Option Backend
+  keyBase : String
+  nKeys : Nat
+  init : List (Option Val)
+  ops : List (List Op)
+
+def parseSpec (b budget wrap sec kb init ops : String) : Option Spec := do
+  let backend ← parseBackend b
+  let budget ← budget.toNat?
+  let (pfx, multi) ← match wrap.toList with
+    | [p, _, u] => some (p == '1', u.toNat - '0'.toNat)
+    | _ => none
+  let secondary ← if sec = "-" then some none else (parseBackend sec).map some
+  let (keyBase, nKeys) ← match kb.splitOn ":" with
+    | [a, n] => n.toNat?.map (fun n => (a, n))
+    | _ => none
+  let init ← (init.splitOn ";").mapM parseVal
+  let ops ← parseOps ops
+  if init.length ≠ nKeys then none
+  else some ⟨backend, budget, pfx, multi, secondary, keyBase, nKeys, init, ops⟩
+
+def strKey (s : String) : Key := s.toList.map Char.toNat
+
+def Spec.userKey (sp : Spec) (k : Nat) : Key := strKey (sp.keyBase ++ toString k)
+/-- the key the backend sees: `PrefixClient(…, "pfx/")` when the prefix wrapper is in the path. -/
+def Spec.mapped (sp : Spec) (k : Nat) : Key :=
+  if sp.pfx then prefixKey (strKey "pfx/") (sp.userKey k) else sp.userKey k
+
+/-- the caller-supplied function of the harness (`c07Op.apply`). -/
+def opF (op : Op) (id : Nat) : Nat → Option Val → FRet Val := fun att inp =>
+  if att < op.failFirst then .fail true
+  else match op.kind with
+    | 'i' => .write (Val.inc inp) op.retry
+    | 'a' => .write (Val.app id inp) op.retry
+    | 'd' => .decline
+    | _ => .fail false
+
+def showFRet : FRet Val → String
+  | .write out r => "w" ++ (if r then "1" else "0") ++ "=" ++ showVal (some out)
+  | .decline => "nil"
+  | .fail r => "e" ++ (if r then "1" else "0")
+
+/-- Which memberlist rule the tree under test has: `false` = the code as it is (no version test when
+`casVersion == 0`, finding D4); set to `true` once the repair (`cas && curr.Version != casVersion`)
+is applied — then `ml_cas_chain_fixed` is the theorem that applies and the known finding goes away. -/
+def mlStrictNow : Bool := false
+
+def cfgOf (sp : Spec) : Cfg Val := { budget := sp.budget, sbudget := 10, merge := Val.merge, mlStrict := mlStrictNow }
+
+/-- initial system: the harness writes the initial values with one uncontended CAS on the primary. -/
+def initSys (sp : Spec) : Sys Val :=
+  let s0 : Sys Val := Sys.init (Store.empty sp.backend) (Store.empty (sp.secondary.getD .consul))
+  let cfg := cfgOf sp
+  let go (s : Sys Val) (kv : Nat × Option Val) : Sys Val :=
+    match kv.2 with
+    | none => s
+    | some v =>
+      let cl : Call Val := ⟨sp.mapped kv.1, fun _ _ => .write v false, false⟩
+      run cfg s [.begin 1000 cl, .step 1000, .step 1000]
+  let s := (sp.init.zipIdx.map (fun (v, i) => (i, v))).foldl go s0
+  { s with log := [] }
+
+/-! ### the model's trace under a given schedule -/
+
+structure Sim where
+  sys : Sys Val
+  nextOp : List Nat         -- per caller: index of the next operation to start
+
+def view (sp : Spec) (s : Sys Val) (k : Nat) : String := showVal (s.pri.val (sp.mapped k))
+
+/-- after the caller was released: it runs until it blocks again (in `f` of the primary loop, or in
+the gated function of the mirror write) or returns. -/
+def afterRelease (cfg : Cfg Val) (c : Nat) (s : Sys Val) (done : Option Bool) : Sys Val × String :=
+  match s.ph c with
+  | .reading .. =>
+    let s' := next cfg s (.step c)
+    (s', match s'.ph c with
+      | .holding _ _ _ _ inp' => "in=" ++ showVal inp'
+      | _ => "?")
+  | .mreading .. =>
+    let s' := next cfg s (.step c)
+    (s', match s'.ph c with
+      | .mholding _ _ _ _ inp' => "min=" ++ showVal inp'
+      | _ => "?")
+  | _ => (s, if done == some true then "ok" else "err")
+
+def simEvent (sp : Spec) (st : Sim) (c : Nat) : String × Sim :=
+  let cfg := cfgOf sp
+  let s := st.sys
+  let j := st.nextOp.getD c 0
+  let k := match (sp.ops.getD c [])[j - 1]? with
+    | some op => op.key
+    | none => 0
+  match s.ph c with
+  | .idle =>
+    match (sp.ops.getD c [])[j]? with
+    | none => (s!"s{c}:nothing-to-start", st)
+    | some op =>
+      let cl : Call Val := ⟨sp.mapped op.key, opF op ((c + 1) * 100 + j), sp.multi == 2⟩
+      let s1 := next cfg (next cfg s (.begin c cl)) (.step c)
+      let res := match s1.ph c with
+        | .holding _ _ _ _ inp => "in=" ++ showVal inp
+        | _ => "?"
+      (s!"s{c}:{res}:{view sp s1 op.key}", ⟨s1, st.nextOp.set c (j + 1)⟩)
+  | .holding cl _ att _ inp =>
+    let fret := showFRet (cl.f att inp)
+    let s1 := next cfg s (.step c)
+    let done := match s1.log with
+      | r :: _ => r.done
+      | [] => none
+    let (s2, res) := afterRelease cfg c s1 done
+    (s!"r{c}:{fret}:{res}:{view sp s2 k}", ⟨s2, st.nextOp⟩)
+  | .mholding .. =>
+    -- the mirror write; whatever happens to it, MultiClient.CAS returns the primary's nil
+    let s1 := next cfg s (.step c)
+    let (s2, res) := afterRelease cfg c s1 (some true)
+    (s!"r{c}:m:{res}:{view sp s2 k}", ⟨s2, st.nextOp⟩)
+  | _ => (s!"x{c}:caller-in-unexpected-phase", st)
+
+def callerOf (ev : String) : Option Nat :=
+  match ev.splitOn ":" with
+  | h :: _ => (h.drop 1).toString.toNat?
+  | [] => none
+
+def simTrace (sp : Spec) (evs : List String) : List String × Sys Val :=
+  let st0 : Sim := ⟨initSys sp, sp.ops.map (fun _ => 0)⟩
+  let (out, st) := evs.foldl (fun (acc : List String × Sim) ev =>
+    match callerOf ev with
+    | none => ("unparsable" :: acc.1, acc.2)
+    | some c => let (e, st') := simEvent sp acc.2 c; (e :: acc.1, st')) ([], st0)
+  (out.reverse, st.sys)
+
+def firstDiff : Nat → List String → List String → Option String
+  | _, [], [] => none
+  | i, a :: as, b :: bs => if a = b then firstDiff (i + 1) as bs else some s!"ev{i}:model={a}"
+  | i, a :: _, [] => some s!"ev{i}:model={a}"
+  | i, [], _ :: _ => some s!"ev{i}:model=end"
+
+/-! ### judge: the property statement on the observed trace -/
+
+def lookupS (l : List (Nat × String)) (k : Nat) : String := ((l.find? (·.1 == k)).map (·.2)).getD "?"
+def setS (l : List (Nat × String)) (k : Nat) (v : String) : List (Nat × String) :=
+  (k, v) :: l.filter (·.1 != k)
+
+structure JSt where
+  left : List (Nat × String)      -- per key: value left by the last successful call (initially the initial value)
+  seen : List (Nat × String)      -- per key: last observed stored value
+  inp : List (Nat × String)       -- per caller: input of its pending attempt
+  started : List (Nat × Nat)      -- per caller: number of operations started
+  bad : List String
+  ovl : Nat                        -- callers currently holding a value
+  maxOvl : Nat
+  retries : Nat
+  errs : Nat
+  mirrors : Nat := 0
+
+def addBad (st : JSt) (r : String) : JSt := if st.bad.contains r then st else { st with bad := st.bad ++ [r] }
+
+def judgeEvent (sp : Spec) (st : JSt) (ev : String) : JSt :=
+  match ev.splitOn ":" with
+  | [h, res, after] =>
+    if !h.startsWith "s" then addBad st "unparsable-event" else
+    match (h.drop 1).toString.toNat? with
+    | none => addBad st "unparsable-event"
+    | some c =>
+      let j := ((st.started.find? (·.1 == c)).map (·.2)).getD 0
+      let key := match (sp.ops.getD c [])[j]? with
+        | some op => op.key
+        | none => 0
+      -- starting a call only reads
+      let st := if after != lookupS st.seen key then addBad st "read-changed-value" else st
+      let st := { st with started := (c, j + 1) :: st.started.filter (·.1 != c), seen := setS st.seen key after }
+      if res.startsWith "in=" then
+        let o := st.ovl + 1
+        { st with inp := setS st.inp c (res.drop 3).toString, ovl := o, maxOvl := max st.maxOvl o }
+      else st
+  | [h, fret, res, after] =>
+    if !h.startsWith "r" then addBad st "unparsable-event" else
+    match (h.drop 1).toString.toNat? with
+    | none => addBad st "unparsable-event"
+    | some c =>
+      let j := ((st.started.find? (·.1 == c)).map (·.2)).getD 0
+      let key := match (sp.ops.getD c [])[j - 1]? with
+        | some op => op.key
+        | none => 0
+      let before := lookupS st.seen key
+      let input := lookupS st.inp c
+      let st :=
+        if fret = "m" then
+          -- the mirror write of a MultiClient: it must not touch the primary, and the call still succeeds
+          let st := if after != before then addBad st "mirror-changed-primary" else st
+          if res = "err" then addBad st "mirrored-call-failed-after-write" else st
+        else if fret.startsWith "w" ∧ (res = "ok" ∨ res.startsWith "min=") then
+          -- a call that reports success and wrote: it must have applied f to the value left by the
+          -- previous successful call, and what it leaves is what f returned
+          let out := (fret.drop 3).toString
+          let st := if input != lookupS st.left key then
+              addBad st (if input = "n" then "stale-input-absent" else "stale-input") else st
+          let st := if after != out then addBad st "value-left-not-output" else st
+          { st with left := setS st.left key after }
+        else if after != before then
+          addBad st (if fret = "nil" then "declined-changed-value"
+                     else if res = "err" then "failed-changed-value" else "retry-changed-value")
+        else st
+      let st := { st with seen := setS st.seen key after }
+      if res.startsWith "in=" then { st with inp := setS st.inp c (res.drop 3).toString, retries := st.retries + 1 }
+      else if res.startsWith "min=" then { st with mirrors := st.mirrors + 1 }
+      else { st with ovl := st.ovl - 1, errs := st.errs + (if res = "err" then 1 else 0) }
+  | _ => addBad st "unparsable-event"
+
+def judgeSched (sp : Spec) (evs : List String) (fin raw : List String) : JSt :=
+  let initS := sp.init.zipIdx.map (fun (v, i) => (i, showVal v))
+  let st0 : JSt := ⟨initS, initS, [], [], [], 0, 0, 0, 0, 0⟩
+  let st := evs.foldl (judgeEvent sp) st0
+  let keys := List.range sp.nKeys
+  -- the final value reflects exactly the successful calls
+  let st := if keys.any (fun k => fin.getD k "?" != lookupS st.left k) then addBad st "final-differs" else st
+  -- the wrappers are transparent: reading the backend under the mapped key gives the same value
+  if keys.any (fun k => raw.getD k "?" != fin.getD k "?") then addBad st "wrapped-get-differs-from-backend" else st
+
+/-! ### stress -/
+
+structure CallRec where
+  key : Nat
+  ok : Bool
+  ins : List String
+  last : String
+
+def parseCallRec (s : String) : Option CallRec :=
+  match s.splitOn ":" with
+  | [_, k, res, ins, last] => k.toNat?.map fun k => ⟨k, res = "ok", ins.splitOn ">", last⟩
+  | _ => none
+
+/-- size of a value: every function of the harness that writes strictly grows it. -/
+def measure (d : String) : Nat :=
+  match parseVal d with
+  | some (some v) => 1 + v.ctr + v.set.length
+  | _ => 0
+
+def insertBy (x : Nat × String × String) : List (Nat × String × String) → List (Nat × String × String)
+  | [] => [x]
+  | y :: ys => if x.1 ≤ y.1 then x :: y :: ys else y :: insertBy x ys
+
+/-- successful writes on key `k` as (input, output) sorted by input size. -/
+def writesOf (recs : List CallRec) (k : Nat) : List (String × String) :=
+  ((recs.filter (fun r => r.key == k && r.ok && r.last.startsWith "w")).foldl
+    (fun acc r => let i := r.ins.getLastD "?"; insertBy (measure i, i, (r.last.drop 3).toString) acc) []).map (·.2)
+
+def chainOk : String → List (String × String) → Option String
+  | cur, [] => some cur
+  | cur, (i, o) :: rest => if i = cur then chainOk o rest else none
+
+def judgeStress (sp : Spec) (recs : List CallRec) (fin raw : List String) : List String :=
+  let keys := List.range sp.nKeys
+  let b1 := if keys.any (fun k =>
+      match chainOk (showVal (sp.init.getD k none)) (writesOf recs k) with
+      | none => true
+      | some _ => false) then ["successful-calls-not-a-chain"] else []
+  let b2 := if keys.any (fun k =>
+      match chainOk (showVal (sp.init.getD k none)) (writesOf recs k) with
+      | none => false
+      | some last => last != fin.getD k "?") then ["final-differs"] else []
+  let b3 := if keys.any (fun k => raw.getD k "?" != fin.getD k "?") then ["wrapped-get-differs-from-backend"] else []
+  b1 ++ b2 ++ b3
+
+/-- replay the chain through the model, one call at a time. -/
+def modelStress (sp : Spec) (recs : List CallRec) : List String :=
+  let cfg := cfgOf sp
+  let keys := List.range sp.nKeys
+  let s := keys.foldl (fun (s : Sys Val) k =>
+    (writesOf recs k).foldl (fun (s : Sys Val) io =>
+      match parseVal io.2 with
+      | some (some out) =>
+        let cl : Call Val := ⟨sp.mapped k, fun _ _ => .write out true, false⟩
+        run cfg s [.begin 0 cl, .step 0, .step 0]
+      | _ => s) s) (initSys sp)
+  keys.map (view sp s)
+
+/-! ### handlers -/
+
+def initClass (sp : Spec) : String :=
+  if sp.init.all (·.isNone) then "abs" else if sp.init.all (·.isSome) then "pres" else "mix"
+
+def handle (cmd : String) (f : List String) : String × String × String :=
+  match cmd, f with
+  | "C07.sched", [b, budget, wrap, sec, kb, init, ops, sid, trace, fin, raw, secv] =>
+    match parseSpec b budget wrap sec kb init ops with
+    | none => ("bad-input", "-", "-")
+    | some sp =>
+      let evs := if trace = "-" then [] else trace.splitOn " "
+      let (mtrace, ms) := simTrace sp evs
+      let keys := List.range sp.nKeys
+      let mfin := ";".intercalate (keys.map (view sp ms))
+      let msec := if sp.multi == 0 then "-" else ";".intercalate (keys.map fun k => showVal (ms.sec.val (sp.mapped k)))
+      let diff :=
+        match firstDiff 0 mtrace evs with
+        | some d => d
+        | none =>
+          if mfin != fin then "fin:model=" ++ mfin
+          else if mfin != raw then "raw:model=" ++ mfin
+          else if msec != secv then "sec:model=" ++ msec
+          else "-"
+      let js := judgeSched sp evs (fin.splitOn ";") (raw.splitOn ";")
+      let judge := if js.bad.isEmpty then "-" else ",".intercalate js.bad
+      let nc := sp.ops.length
+      let nops := (sp.ops.map List.length).foldl (· + ·) 0
+      let tags := s!"sched b={b} w={wrap} init={initClass sp} bud={sp.budget} nc={min nc 8} ops={min (nops / 4 * 4) 16} keys={sp.nKeys} s={(sid.take 1).toString} ovl={min js.maxOvl 3} retries={min js.retries 3} errs={min js.errs 2} mir={min js.mirrors 2}"
+      (diff, judge, tags)
+  | "C07.stress", [b, budget, wrap, sec, kb, init, ops, _sid, calls, fin, raw] =>
+    match parseSpec b budget wrap sec kb init ops with
+    | none => ("bad-input", "-", "-")
+    | some sp =>
+      match (if calls = "-" then some [] else (calls.splitOn " ").mapM parseCallRec) with
+      | none => ("bad-calls", "-", "-")
+      | some recs =>
+        let j := judgeStress sp recs (fin.splitOn ";") (raw.splitOn ";")
+        let judge := if j.isEmpty then "-" else ",".intercalate j
+        let mfin := ";".intercalate (modelStress sp recs)
+        let diff := if mfin = fin then "-" else "fin:model=" ++ mfin
+        let retried := (recs.filter (fun r => r.ins.length > 1)).length
+        let tags := s!"stress b={b} w={wrap} init={initClass sp} nc={min sp.ops.length 16} ovl=3 retried={min retried 3}"
+        (diff, judge, tags)
+  | _, _ => ("unknown-cmd", "-", "-")
 
 end OracleC07
